@@ -10,15 +10,18 @@ def run(tier, seed):
     progs = []
     while len(progs) < n:
         p = g.program({"requests": True, "nstrat": g.rng.choice([0, 1, 2, 2]),
-                       "nsteps": g.rng.choice([2, 3, 4]), "nonlinear": g.rng.random() < 0.35})
+                       "nsteps": g.rng.choice([2, 3, 4]), "nonlinear": g.rng.random() < 0.35,
+                       "t0": g.rng.choice(["0", "1", "-2", "-1", "5/2", "-3/2"])})
         reqs = [{"name": o["name"], "req": o["req"], "save": o.get("save", True)} for o in p["ops"] if o["op"] == "req"]
         if not reqs:
             continue
-        # a cumulative output that starts at a grid time
-        if g.rng.random() < 0.3:
+        # a cumulative output that starts at a grid time (time 0 in particular when the grid contains it)
+        t0, h = gen.Fraction(p["times"][0]), gen.Fraction(p["times"][2])
+        zero_k = (-t0) / h
+        has_zero = zero_k.denominator == 1 and 0 <= zero_k <= nsteps(p)
+        if g.rng.random() < 0.3 or (has_zero and zero_k > 0):
             src = g.rng.choice(reqs)["name"]
-            t0, h = gen.Fraction(p["times"][0]), gen.Fraction(p["times"][2])
-            k = g.rng.randint(0, int(nsteps(p)))
+            k = int(zero_k) if (has_zero and g.rng.random() < 0.7) else g.rng.randint(0, int(nsteps(p)))
             nm = "cst"
             wl = [o for o in p["ops"] if o["op"] == "whitelist"]
             p["ops"] = [o for o in p["ops"] if o["op"] != "whitelist"] + \
@@ -31,6 +34,7 @@ def run(tier, seed):
         if (not p["nonlinear"]) or nsteps(p) <= 2:
             obs.append({"obs": "run", "solver": "euler", "params": pv})
         obs.append({"obs": "oracle", "name": "c08", "params": pv, "reqs": reqs, "cvs": cvs,
+                    "prior_params": g.params_values(small=True) if g.rng.random() < 0.5 else None,
                     "whitelist": wl[-1] if wl else None, "solver": g.rng.choice(["euler", "rk4", "solve_ivp"])})
         p["obs"] = obs
         progs.append(p)
